@@ -57,6 +57,9 @@ structure FnDef where
   ret : Ty
   callees : List Nat
   testOnly : Bool
+  /-- C16: the calls of the body in evaluation order, (callee, receiver-or-first-argument), `for`
+  loops bracketed — present only for functions that touch an ownership-sensitive primitive -/
+  own : List (Nat × Nat) := []
   deriving Repr, Inhabited
 
 structure ImplDef where
